@@ -29,6 +29,10 @@ func scenarios() []*sess.Scenario {
 		// other call still gets exactly its own result
 		{Name: "W1-one-write-fails", Salt: 77, Opt: rpcsrv.Options{Reorder: true, IDAtGeneration: true}, WriteFaults: 1,
 			Callers: [][]sess.Call{{{Tag: 1, Kind: rpcsrv.KObj}, {Tag: 2, Kind: rpcsrv.KBool}, {Tag: 3, Kind: rpcsrv.KObj}}, {{Tag: 4, Kind: rpcsrv.KObj}, {Tag: 5, Kind: rpcsrv.KObj}}}},
+		// the keep-alive timer fires at a moment the explorer chooses: the pinging goroutine sends its ping between
+		// the steps of the callers and of the reading routine, the server answers it with a pong
+		{Name: "P1-keepalive-ping-among-callers", Salt: 77, Opt: rpcsrv.Options{Reorder: true, Container: true, IDAtGeneration: true}, Ticks: 1,
+			Callers: [][]sess.Call{{{Tag: 1, Kind: rpcsrv.KObj}, {Tag: 3, Kind: rpcsrv.KBool}}, {{Tag: 2, Kind: rpcsrv.KVecInt}}}},
 		{Name: "S5-sequential-all-kinds", Salt: 77, Opt: all, Callers: [][]sess.Call{{{Tag: 1, Kind: rpcsrv.KObj}, {Tag: 2, Kind: rpcsrv.KBool}, {Tag: 3, Kind: rpcsrv.KVecInt}, {Tag: 4, Kind: rpcsrv.KVecObj}, {Tag: 5, Kind: rpcsrv.KErr}}}},
 	}
 }
